@@ -4,6 +4,7 @@ import TwistedProps.C14.Delivery
 import TwistedProps.C14.HalfClose
 import TwistedProps.C14.CloseLive
 import TwistedProps.C14.Gen
+import TwistedProps.C14.Py
 /-!
 C14 — transport write buffering delivers bytes exactly once and honours producers.
 
@@ -30,6 +31,13 @@ nesting depth, every `SEND_LIMIT` / `bufferSize`.
 
 The model follows the repaired `FileDescriptor.registerProducer` (it applies `_maybePauseProducer`); on the
 unrepaired tree `write(b"x"); registerProducer(p, True)` with `bufferSize = 0` falsified the pause clause.
+
+Python-level arguments (`TwistedModel/Transport/FDPy.lean`, `C14/Py.lean`): `writeSequence` is given an arbitrary
+iterable (list / tuple, other collection, one-shot iterator or generator) and `registerProducer` a `bool` or `int`
+flag; `writeSequencePy_eq` / `applyPy_eq` / `reachPy_eq` show that the code as it is does with them what the model
+does with the elements / the truth value, so every theorem below holds for histories of Python-level operations too
+(`stream_integrity_py`, `close_only_after_flush_py`).  Before the repair of `writeSequence` (no `list(iovec)`) a
+one-shot iterable lost every byte: `writeSequencePyOld_counterexample`.
 
 `gen_*`: the predicate `_isSendBufferFull` is regenerated from abstract.py on every run (`Generated.FD`,
 harness/py2lean.py) and proved equal to the model's `isSendBufferFull` (`TwistedProps/C14/Gen.lean`).
@@ -449,5 +457,38 @@ example : Ev.lost .done 0 true true true ∈
 -- a pull producer registered before loseWriteConnection keeps the write side open
 example : let s := reach 2 8 4 [⟨[[.write [1]], []], []⟩] [.register 0 false, .loseWrite, .tick .all, .tick .all, .tick .all]
     (s.writeDisconnected, s.sent, s.connected) = (false, [1], true) := by decide
+
+/-! ## Histories of Python-level operations
+
+`writeSequence(<any iterable>)`, `registerProducer(p, <bool or int>)`: the same reachable states. -/
+
+/-- `FileDescriptor.writeSequence` as it is, given ANY iterable of chunks - list / tuple, other collection, one-shot
+iterator or generator - does exactly what the model's `writeSeq` does with its elements. -/
+theorem writeSequence_any_iterable (cb : Cb) (v : Iovec) (s : St) :
+    writeSequencePy cb v s = writeSeq cb v.items s := writeSequencePy_eq cb v s
+
+/-- Before the repair (twisted 25e023e) `writeSequence(<one-shot iterable>)` on a connected idle transport buffered
+nothing of what it was given (and asked to be polled for writing): every byte lost. -/
+theorem writeSequence_one_shot_before_repair_counterexample :
+    let s := writeSequencePyOld (cbAt 0) (.once [[1, 2], [3]]) (init 8 4 [])
+    s.acc = [1, 2, 3] ∧ s.unsent = [] ∧ s.sent = [] ∧ s.writer = true := writeSequencePyOld_counterexample
+
+def reachPy (d sl bs : Nat) (ps : List Producer) (ops : List PyOp) : St := runPy (cbAt d) ops (init sl bs ps)
+
+theorem reachPy_eq (d sl bs : Nat) (ps : List Producer) (ops : List PyOp) :
+    reachPy d sl bs ps ops = reach d sl bs ps (ops.map PyOp.abs) := runPy_eq _ _ _
+
+theorem stream_integrity_py (d sl bs : Nat) (ps : List Producer) (ops : List PyOp) :
+    (reachPy d sl bs ps ops).sent ++ (reachPy d sl bs ps ops).unsent = (reachPy d sl bs ps ops).acc := by
+  rw [reachPy_eq]; exact stream_integrity d sl bs ps _
+
+theorem close_only_after_flush_py (d sl bs : Nat) (ps : List Producer) (ops : List PyOp)
+    (pending : Nat) (pullProducer wd late : Bool)
+    (h : Ev.lost .done pending pullProducer wd late ∈ (reachPy d sl bs ps ops).log) :
+    pending = 0 ∧ (pullProducer = true → wd = true ∧ late = true) := by
+  rw [reachPy_eq] at h; exact close_only_after_flush d sl bs ps _ pending pullProducer wd late h
+
+example : (reachPy 2 8 4 [] [.writeSeqIt (.once [[1, 2], [3]]), .base (.tick (.n 2)), .writeSeqIt (.coll [[4]]),
+    .base (.tick .all)]).sent = [1, 2, 3, 4] := by decide
 
 end TwistedProps.C14
